@@ -13,7 +13,8 @@ RULE = ("Hypothesis constructs scripts whose statements take polynomial/rational
         "(N up to 3 digits, leading zeros) with int/float coefficients and declared variables, in positional and keyword position, "
         "mixed with register-free arguments, also in loop bodies. Oracle (reference model): the delivered object is a "
         "RegRefTransform; sorted(regrefs) equals the registers of the written expression, each once; func applied to measurement "
-        "values in the listed order equals the reference value at 3 generic points (relative 1e-9); register-free arguments are "
+        "values in the listed order equals the reference value (relative 1e-12) at 3 generic points, one point with all registers "
+        "close to each other and points next to the literals written in the expression; register-free arguments are "
         "plain values. Expressions in which a register cancels identically (value does not depend on it at 50 digits) are "
         "discarded and counted. Each shard runs in its own interpreter with a different PYTHONHASHSEED because the order of the "
         "listed registers is hash dependent. Non-trivial = an argument with >=2 distinct registers, or a register expression in "
@@ -98,8 +99,11 @@ def check(c):
         out.violations.append(Violation(exc_bucket("load", e), "valid script refused: %s: %s\n%s" % (type(e).__name__, e, text)))
         return out
     try:
+        canon.SYM_RTOL[0] = 1e-12     # the transform's function computes the written formula (no printing in between)
         mm = canon.compare_ref(p, ref)
     except IllConditioned:
         return Outcome(discard="ill-conditioned")
+    finally:
+        canon.SYM_RTOL[0] = 1e-9
     out.violations.extend(K.mismatch_violations("transform", mm, text))
     return out
